@@ -365,7 +365,7 @@ func checkDefs() map[string]*CheckDef {
 					{Name: "map-linearizable", Pkg: ioc + "/util/sync2", Entry: "VerifC20Linearizable", Params: map[string]int{"OPS": tierPick(tier, 1, 2), "KEYS": tierPick(tier, 2, 1)}, MustCover: []string{"history checked"}, Opts: il(2)},
 					{Name: "range-with-writer", Pkg: ioc + "/util/sync2", Entry: "VerifC20Range", MustCover: []string{"range history checked", "Range concurrent with a Delete"}, Opts: il(tierPick(tier, 3, 5))},
 					{Name: "set", Pkg: ioc + "/util/list", Entry: "VerifC20Set", Params: map[string]int{"OPS": tierPick(tier, 1, 2)}, MustCover: []string{"set history checked", "generic set"}, Opts: il(2)},
-					{Name: "scan-phase-races", Pkg: fac, Entry: "VerifC20Scan", Params: map[string]int{"N": tierPick(tier, 3, 5)}, MustCover: []string{"several scanners fail at the same time"}, Opts: ExecOpts{Sched: "join", Races: true, RealSyslog: true}},
+					{Name: "scan-phase-races", Pkg: fac, Entry: "VerifC20Scan", Params: map[string]int{"N": tierPick(tier, 3, 5), "WORK": 1}, MustCover: []string{"several scanners fail at the same time"}, Opts: ExecOpts{Sched: "join", Races: true, RealSyslog: true}},
 					{Name: "scan-shared-tag-text", Pkg: fac, Entry: "VerifC20Scan", Params: map[string]int{"N": tierPick(tier, 1, 2), "SHARED": 1}, MustCover: []string{"components sharing a tag text scanned concurrently"}, Opts: ExecOpts{Sched: "join", Races: true, RealSyslog: true}},
 					{Name: "close-races", Pkg: app, Entry: "VerifC14", Params: map[string]int{"N": 3}, MustCover: []string{"several closers"}, Opts: ExecOpts{Sched: "join", Races: true, RealSyslog: true}},
 				}
